@@ -86,6 +86,9 @@ def returning(sk, *xs):
     if sk.get("fmt"):
         for rid, fm in zip(t.getRankIds(), sk["fmt"]):
             t.setFormat(rid, fm)
+    if sk.get("prep") == "flatten":
+        # the operand of the transform under test is itself a transform result (a tensor whose top rank is flattened)
+        t = t.flattenRanks(depth=opt.get("depth", 0), levels=opt.get("levels", 1))
     n = xforms.xf_nargs(name, opt)
     a = list(xs[pos:pos + n])
     w = xs[pos + n]
@@ -110,7 +113,11 @@ def returning(sk, *xs):
     r2 = snapshot(r)
     for p in leaves(t.getRoot()):
         p += 1
-    t.getRoot().append(S + 5, copy.deepcopy(t.getRoot().payloads[0]) if len(t.getRoot().payloads) else (Fiber() if d > 1 else 1))
+    far = S + 5
+    if len(t.getRoot().coords) and isinstance(t.getRoot().coords[0], tuple):
+        far = tuple(S + 5 for _ in t.getRoot().coords[0])          # a flattened top rank has tuple coordinates
+    nd = len(t.getRankIds())
+    t.getRoot().append(far, copy.deepcopy(t.getRoot().payloads[0]) if len(t.getRoot().payloads) else (Fiber() if nd > 1 else 1))
     if snapshot(r) != r2:
         return fail("mutating the operand changed the result")
     return True
@@ -235,6 +242,13 @@ def obligations(tier):
             obs.append(Ob("ret/%s/%s" % (_nm(tree), label.replace(" ", "")), "returning",
                           dict(tree=tree, xf=name, opt=opt, depth=2, S=S, fmt=["U", "C"]), ps + an + ["w"], p2))
     obs.append(Ob("ret/box2x2/swizzle", "returning", dict(tree=None, box=[2, 2], xf="swizzleRanks", opt={"perm": [1, 0]}, depth=2, S=2), names("v", 4) + ["w"], []))
+    # the identity permutation is a transform like any other: a new tensor sharing nothing with its operand
+    obs.append(Ob("ret/box2x2/swizzle-identity", "returning", dict(tree=None, box=[2, 2], xf="swizzleRanks", opt={"perm": [0, 1]}, depth=2, S=2), names("v", 4) + ["w"], []))
+    for tree in ([1, 1], [2, 1]):
+        ps = names("x", tree_params(tree))
+        pre, _, cn = tree_pre(tree, ps)
+        obs.append(Ob("ret/flattened%s/unflattenRanks" % _nm(tree), "returning", dict(tree=tree, xf="unflattenRanks", opt={}, depth=2, S=S, prep="flatten"),
+                      ps + ["w"], pre + bound_pre(cn, 0, S)))
     if not q:
         obs.append(Ob("ret/box2x2x2/swizzle", "returning", dict(tree=None, box=[2, 2, 2], xf="swizzleRanks", opt={"perm": [2, 0, 1]}, depth=3, S=2), names("v", 8) + ["w"], []))
         for name, opt in (("flattenRanks", {"depth": 1}), ("swapRanks", {"depth": 1}), ("splitUniform", {"step": 2, "depth": 2}), ("deepcopy", {})):
